@@ -62,7 +62,7 @@ def skolem_parts(goal):
         pre+='(declare-const %s %s)\n'%(n,srt)
     pre+='(assert %s)\n'%bb[1]
     for k,pt in enumerate(pats):
-        pre+='(declare-fun keep!%d (Int) Bool)\n(assert (keep!%d %s))\n'%(k,k,pt)
+        pre+=''
     return pre,split(bb[2])
 f=sys.argv[1]; to=sys.argv[2] if len(sys.argv)>2 else '10'
 s=open(f).read()
